@@ -315,10 +315,12 @@ func checkC08(c *core.Ctx, r *core.Report) {
 		"(4) SIBLING — the leading-zero count compressValue keeps for the next value is the very value it writes into the 5-bit field; " +
 		"(5) HELD — the open compressor of a series is copied for a query only with the series lock held; " +
 		"(6) CURSOR — the rotated-block reader moves the cursor that narrows its next search of the series offset table only after a lookup that found its series; " +
+		"(7) ORDER (shared with C10) — when a block is rotated, the next block's WAL file is created after the block number advanced (recovery re-flushes the block number found in the file name, so a WAL created too early makes a restart overwrite the rotated block); " +
 		"(3) LIVE — a scratch bytes.Buffer that is declared outside a loop, filled inside it and Reset on some path of the iteration is Reset on every path to the next iteration (leftover bytes of one series would be decoded as part of the next)."
 	r.NotCovered = "TSID hashing and collisions, tags-tree contents, rotation/restart behaviour, the series-file layout, value equality in general"
 
 	c08Cursor(c, r)
+	checkWalAfterBlockNumber(c, r, newSummaries(c))
 
 	writeBits := c.Obj(pkgCompress, "bitWriter.writeBits")
 	writeI64 := c.Obj(pkgCompress, "writeInt64Bits")
